@@ -29,6 +29,7 @@ type entry struct {
 	file    string            // relative to the repository root
 	name    string            // function or method name
 	recv    string            // receiver type name for a method ("" = function); the Gallina name is <recv>_<name>
+	as      string            // Gallina name when the Go name is already taken by another package's function
 	externs map[string]extern // functions the body calls that are NOT translated (I/O): they become leading parameters
 }
 
@@ -50,6 +51,7 @@ var whitelist = []entry{
 	{file: "followlinks.go", name: "containsWildcards"},
 	{file: "followlinks.go", name: "dedupePaths"},
 	{file: "stat_unix.go", name: "skipXattr"},
+	{file: "copy/copy.go", name: "containsWildcards", as: "copy_containsWildcards"},
 	{file: "types/stat.go", name: "IsDir", recv: "Stat"},
 	{file: "diff_containerd.go", name: "sameFile", externs: map[string]extern{
 		// reads both files: the result of sameFile is stated for every behaviour of this function
@@ -2096,6 +2098,10 @@ func (t *tr) function(fd *ast.FuncDecl, e entry) (string, error) {
 		sig.name = ident(e.recv + "_" + fd.Name.Name)
 		key = e.recv + "." + fd.Name.Name
 	}
+	if e.as != "" {
+		// registered under the Gallina name only: functions of other packages cannot call it by its Go name
+		sig.name, key = ident(e.as), e.as
+	}
 	ev := &env{}
 	ev.push()
 	params := ""
@@ -2179,6 +2185,9 @@ func (t *tr) function(fd *ast.FuncDecl, e entry) (string, error) {
 	}
 	sig.opt = hasLoopOrOptCall(t, fd)
 	t.cur, t.goName, t.aux, t.nloop = sig, fd.Name.Name, nil, 0
+	if e.as != "" {
+		t.goName = e.as
+	}
 	c := &ctx{ret: func(code string) string { return code }}
 	rty := t.resCoq()
 	if sig.opt {
@@ -2230,6 +2239,9 @@ func translate(root string, whitelist []entry) string {
 		label := e.name
 		if e.recv != "" {
 			label = e.recv + "." + e.name
+		}
+		if e.as != "" {
+			label = e.as
 		}
 		f, ok := files[e.file]
 		if !ok {
